@@ -208,6 +208,10 @@ func mapKeys(m map[string]string) map[string]bool {
 
 func propC14(c *Ctx) {
 	l := c.L
+	defer func() {
+		rti := c.Rule("throw-identity", "a Go error that already is a *RuntimeError re-enters the VM as the same object: an error raised by a script function keeps its identity when the function is called from Go", 1)
+		ruleThrowIdentity(c, rti)
+	}()
 	ri := c.Rule("child-init", "every VM field that run-time code reads and Run's prologue does not initialise is stored by the pool's acquire on every path (release zeroes the whole VM), and every Bytecode field run-time code reads is stored into the child's private Bytecode", 6)
 	vf := getVMFacts(c, ri)
 	if vf == nil {
